@@ -89,7 +89,7 @@ def hyp_part(n_examples, shard):
     @st.composite
     def case(draw):
         ver = draw(gen.version_key())
-        kind = draw(st.sampled_from(("object", "score-sweep", "score-sweep", "near-score", "special-score", "no-slash", "bad-score",
+        kind = draw(st.sampled_from(("object", "score-sweep", "score-sweep", "near-score", "padded-score", "special-score", "no-slash", "bad-score",
                                      "bad-vector", "both-bad", "other-score-slot")))
         v = draw(gen.valid(ver))
         if kind == "object":
@@ -105,6 +105,13 @@ def hyp_part(n_examples, shard):
             fmt = draw(st.sampled_from(("%r", "%r", "%.17g", "%.12f", "%.2f", "%.1f0", "%.4e")))
             x = base + delta
             return ver, kind, (fmt % x) + "/" + v
+        if kind == "padded-score":
+            # the score part padded with ANY kind of white space / control character: float() itself decides what parses
+            base = scorecheck.as_floats(scorecheck.expected_scores(ver, v))[0]
+            pads = ("", " ", "\t", "\n", "\r", "\x0b", "\x0c", "\x1c", "\x1d", "\x1e", "\x1f", "\x85", "\xa0", "\u2003", "\u2028", "\u3000", "\ufeff",
+                    "\x00", "\x08", "\x7f", "\u200b")
+            sc = draw(st.sampled_from(("%.1f" % base, "%.1f" % ((base + 0.1) % 10.1))))
+            return ver, kind, draw(st.sampled_from(pads)) + sc + draw(st.sampled_from(pads)) + "/" + v
         if kind == "special-score":
             sc = draw(st.sampled_from(("nan", "inf", "-inf", "-0.0", "1e1", "10", "0", "1_0", "٣.٥", "0x10", "1e400", ".5", "5.", "")))
             return ver, kind, sc + "/" + v
@@ -176,6 +183,6 @@ def run(tier, t0):
     return runner.finish(part, tier, t0, rule,
                          ["'parses as a number' = Python float() succeeds; equality is exact float equality with the oracle base score",
                           "when both the score part and the vector part are faulty either error class is accepted"],
-                         required=("object", "score-sweep", "near-score", "special-score", "no-slash", "bad-score", "bad-vector", "both-bad",
+                         required=("object", "score-sweep", "near-score", "padded-score", "special-score", "no-slash", "bad-score", "bad-vector", "both-bad",
                                    "other-score-slot", "sweep-101", "outcome:ok", "outcome:rh-mismatch", "outcome:rh-malformed",
                                    "outcome:malformed", "outcome:mandatory"))
